@@ -29,6 +29,24 @@ def extract(src="/repo", config="dev", all_targets=False, keep_log=False, retrie
     failures are retried."""
     import fcntl
     os.makedirs(CACHE, exist_ok=True)
+    # tools only (tools/mut.py run_seed on a scratch copy that does not change between the 18 checks): a
+    # fact file written once for that copy is reused.  Never set for the registered checks, which extract
+    # from /repo's current tree on every run.
+    reuse = os.environ.get("WV_FACTS_REUSE")
+    if reuse and src != "/repo":
+        pth = os.path.join(src, ".wfacts-%s.json" % config)
+        if os.path.exists(pth):
+            with open(pth) as fh:
+                return json.load(fh)
+        facts = extract_fresh(src, config, all_targets, retries)
+        with open(pth, "w") as fh:
+            json.dump(facts, fh)
+        return facts
+    return extract_fresh(src, config, all_targets, retries)
+
+
+def extract_fresh(src="/repo", config="dev", all_targets=False, retries=3):
+    import fcntl
     last = None
     for attempt in range(retries):
         with open(os.path.join(CACHE, "extract-%s.lock" % config), "w") as lk:
